@@ -1,19 +1,18 @@
 import RsMatterVerif.Model.AclOps
 import Driver.Util
-/-! Driver for C05: replays configuration + query lines on `Model/Acl` + `Model/AclOps` (DIS = the
-model answers differently from the real code: the answer of every mutator, the canonical dump of the
-whole fabric table, `AccessReq::allow`, both halves of every entry match, `for_session`) and evaluates
-the declarative specification `Acl.grantedB` / `Acl.reachesB` / `Acl.reachesIdB` on the same inputs
-against the implementation's decision (ORA). Every mutator line is parsed into an `Acl.CfgOp` and
-executed by `Acl.CfgOp.apply` — the function the history theorems of `Props/C05` are about. -/
+/-! Driver for C05 (first-generation ops `fab` … `reload` run the functions of `Model/Acl.lean`; the
+history ops `faba`, `hw`, `ainit`, … , `dump`, `sq`, `sr` are parsed into an `Acl.CfgOp` and executed by
+`Acl.CfgOp.apply` — the function the history theorems of `Props/C05Ops` are about — with every
+answer and the canonical dump of the whole fabric table compared).
+Driver for C05: replays configuration + query lines on `Model/Acl` (DIS = the model answers
+differently from the real `AccessReq::allow`) and evaluates the declarative specification
+`Acl.grantedB` / `Acl.reachesB` on the same inputs against the implementation's decision (ORA). -/
 namespace Driver.C05
 open Acl
 
-structure St where
-  cfg : Cfg := {}
-
-/-- the configuration as the decision sees it (also used by the C06 driver) -/
-def St.fabrics (st : St) : List Fabric := proj st.cfg.fabrics
+/-- the fabric table (`fabrics`, also read by the C06 driver) and the fabric records of the
+key-value store (`store`): `Acl.Cfg` -/
+structure St extends Cfg
 
 def modeOf (s : String) : Option (Option AuthMode) :=
   if s = "p" then some (some .pase) else if s = "c" then some (some .case)
@@ -109,13 +108,13 @@ def showEntry (e : Entry) : String :=
   let m := match e.authMode with | .pase => "p" | .case => "c" | .group => "g"
   s!"{e.privilege}.{m}.{subj}.{targ}.{showOpt e.fabIdx}"
 
-def showGroup (x : XGroup) : String :=
-  let eps := if x.g.endpoints.isEmpty then "-" else ",".intercalate (x.g.endpoints.map toString)
-  let aux := match x.g.hasAuxAcl with | none => "n" | some false => "0" | some true => "1"
-  s!"{x.g.groupId}:{eps}:{aux}:{if x.managed then 1 else 0}"
+def showGroup (x : GroupMapping) : String :=
+  let eps := if x.endpoints.isEmpty then "-" else ",".intercalate (x.endpoints.map toString)
+  let aux := match x.hasAuxAcl with | none => "n" | some false => "0" | some true => "1"
+  s!"{x.groupId}:{eps}:{aux}:{if x.managed then 1 else 0}"
 
 /-- the canonical text of the fabric table (`c05_ops::dump` of the harness) -/
-def showTable (s : List XFabric) : String :=
+def showTable (s : List Fabric) : String :=
   if s.isEmpty then "-"
   else " ".intercalate (s.map (fun f =>
     "F" ++ toString f.fabIdx ++ "{" ++ ";".intercalate (f.acl.map showEntry) ++ "|" ++
@@ -129,9 +128,9 @@ def showSubjects (l : List Nat) : String :=
 
 /-- run a mutator and compare its answer; `render` turns the model's answer into the harness's text -/
 def runOp (st : St) (o : CfgOp) (out : String) (render : Res → String) : St × String :=
-  let r := o.apply st.cfg
+  let r := o.apply st.toCfg
   let m := render r.2
-  ({ cfg := r.1 }, if m = out then "ok" else s!"DIS {m}")
+  ({ toCfg := r.1 }, if m = out then "ok" else s!"DIS {m}")
 
 def renderStd (yes no : String) : Res → String
   | .ok => "ok"
@@ -172,65 +171,32 @@ def step (st : St) (line : String) : St × String :=
     if out ≠ "ok" then (st, s!"BAD harness built with other enumeration values: {out}")
     else if ok then (st, "ok") else (st, "DIS enums")
   | ["dump"] =>
-    let m := showTable st.cfg.fabrics
+    let m := showTable st.fabrics
     if m = out then (st, "ok") else (st, s!"DIS {m}")
-  | ["fab"] => runOp st (.fabAdd none) out (renderOld "yes" "no")
-  | ["rmfab", i] =>
-    match i.toNat? with
-    | none => (st, "BAD num")
-    | some i =>
-      if fabOk i then runOp st (.fabRemove i) out (renderOld "yes" "no")
-      else if out = "err" then (st, "ok") else (st, "DIS err")
-  | ["acl", fab, pb, mode, subjects, targets] =>
-    match fab.toNat?, pb.toNat?, modeOf mode with
-    | some fab, some pb, some (some mode) =>
-      match buildEntry pb mode subjects targets with
-      | none => (st, "BAD entry")
-      | some none => if out = "err" then (st, "ok") else (st, "DIS err")
-      | some (some e) =>
-        if fabOk fab then runOp st (.aclAdd fab e) out (renderOld "yes" "no")
-        else if out = "err" then (st, "ok") else (st, "DIS err")
-    | _, _, _ => (st, "BAD acl")
-  | ["grp", fab, gid, ep] =>
-    match fab.toNat?, gid.toNat?, ep.toNat? with
-    | some fab, some gid, some ep =>
-      if fabOk fab && decide (gid ≤ 65535) && decide (ep ≤ 65535) then
-        runOp st (.grpAdd fab ep gid) out (fun r => match r with | .flag _ => "ok" | r => renderOld "yes" "no" r)
-      else if out = "err" then (st, "ok") else (st, "DIS err")
-    | _, _, _ => (st, "BAD grp")
-  | ["gaux", fab, gid, v] =>
-    match fab.toNat?, gid.toNat? with
-    | some fab, some gid =>
-      -- the harness looks the group up first (`f.groups().get(gid)?`)
-      let there := fabOk fab && decide (gid ≤ 65535) &&
-        (match xGet st.cfg.fabrics fab with | some f => (xGroupsFind f.groups gid).isSome | none => false)
-      if there then runOp st (.grpSetAux fab gid (v = "1")) out (renderOld "changed" "same")
-      else if out = "err" then (st, "ok") else (st, "DIS err")
-    | _, _ => (st, "BAD gaux")
-  | ["aclu", fab, idx, pb, mode, subjects, targets] =>
+  | ["aupd", fab, idx, pb, mode, subjects, targets] =>
     match fab.toNat?, idx.toNat?, pb.toNat?, modeOf mode with
     | some fab, some idx, some pb, some (some mode) =>
       match buildEntry pb mode subjects targets with
       | some (some e) => if fabOk fab then runOp st (.aclUpdate fab idx e) out (renderStd "yes" "no") else (st, "BAD fab")
       | _ => (st, "BAD entry")
-    | _, _, _, _ => (st, "BAD aclu")
-  | "acli" :: fab :: rest =>
+    | _, _, _, _ => (st, "BAD aupd")
+  | "ainit" :: fab :: rest =>
     match fab.toNat?, parseInit rest with
     | some fab, some ini => if fabOk fab then runOp st (.aclAddInit fab ini) out (renderStd "yes" "no") else (st, "BAD fab")
-    | _, _ => (st, "BAD acli")
-  | "aclui" :: fab :: idx :: rest =>
+    | _, _ => (st, "BAD ainit")
+  | "uinit" :: fab :: idx :: rest =>
     match fab.toNat?, idx.toNat?, parseInit rest with
     | some fab, some idx, some ini =>
       if fabOk fab then runOp st (.aclUpdateInit fab idx ini) out (renderStd "yes" "no") else (st, "BAD fab")
-    | _, _, _ => (st, "BAD aclui")
-  | ["aclrm", fab, idx] =>
+    | _, _, _ => (st, "BAD uinit")
+  | ["arm", fab, idx] =>
     match fab.toNat?, idx.toNat? with
     | some fab, some idx => if fabOk fab then runOp st (.aclRemove fab idx) out (renderStd "yes" "no") else (st, "BAD fab")
-    | _, _ => (st, "BAD aclrm")
-  | ["aclclr", fab] =>
+    | _, _ => (st, "BAD arm")
+  | ["aclr", fab] =>
     match fab.toNat? with
     | some fab => if fabOk fab then runOp st (.aclRemoveAll fab) out (renderStd "yes" "no") else (st, "BAD fab")
-    | none => (st, "BAD aclclr")
+    | none => (st, "BAD aclr")
   | "hw" :: fab :: rest =>
     let w : Option AclWrite := match rest with
       | ["replace", l] => if l = "-" then some (.replace []) else ((l.splitOn "|").mapM parseWire).map .replace
@@ -254,12 +220,12 @@ def step (st : St) (line : String) : St × String :=
     | some fab, some ep, some gid =>
       if fabOk fab && decide (ep ≤ 65535) then runOp st (.grpRemove fab ep gid) out (renderStd "yes" "no") else (st, "BAD range")
     | _, _, _ => (st, "BAD grm")
-  | ["gjoin", fab, gid, eps, replace, _policy] =>
+  | ["join", fab, gid, eps, replace, _policy] =>
     match fab.toNat?, gid.toNat?, natList eps with
     | some fab, some gid, some eps =>
       if fabOk fab && decide (gid ≤ 65535) then runOp st (.grpJoin fab gid eps (replace = "1")) out (renderStd "yes" "no")
       else (st, "BAD range")
-    | _, _, _ => (st, "BAD gjoin")
+    | _, _, _ => (st, "BAD join")
   | ["gcrm", fab, gid] =>
     match fab.toNat?, gid.toNat? with
     | some fab, some gid =>
@@ -284,17 +250,153 @@ def step (st : St) (line : String) : St × String :=
     | none => (st, "BAD faba")
   | ["wipe"] => runOp st .resetPersist out (renderStd "yes" "no")
   | ["load"] => runOp st .loadPersist out (renderStd "yes" "no")
-  | ["reload", fab] =>
+  | ["rollback", fab] =>
     match fab.toNat? with
     | some fab => if fabOk fab then runOp st (.reload fab) out (renderStd "yes" "no") else (st, "BAD fab")
-    | none => (st, "BAD reload")
+    | none => (st, "BAD rollback")
+  | ["fab"] =>
+    match fabricsAdd st.fabrics with
+    | some (fs, i) => if out = toString i then ({ st with fabrics := fs }, "ok") else ({ st with fabrics := fs }, s!"DIS {i}")
+    | none => if out = "err" then (st, "ok") else (st, "DIS err")
+  | ["rmfab", i] =>
+    match i.toNat? with
+    | none => (st, "BAD num")
+    | some i =>
+      match (if i = 0 ∨ i > 255 then none else fabricsRemove st.fabrics i) with
+      | some fs => if out = "ok" then ({ st with fabrics := fs }, "ok") else ({ st with fabrics := fs }, "DIS ok")
+      | none => if out = "err" then (st, "ok") else (st, "DIS err")
+  | ["acl", fab, pb, mode, subjects, targets] =>
+    match fab.toNat?, pb.toNat?, modeOf mode with
+    | some fab, some pb, some (some mode) =>
+      match buildEntry pb mode subjects targets with
+      | none => (st, "BAD entry")
+      | some none => if out = "err" then (st, "ok") else (st, "DIS err")
+      | some (some e) =>
+        let r : Option (List Fabric × Nat) :=
+          if fab = 0 ∨ fab > 255 then none else fabricsAclAdd st.fabrics fab e
+        match r with
+        | some (fs, i) => if out = toString i then ({ st with fabrics := fs }, "ok") else ({ st with fabrics := fs }, s!"DIS {i}")
+        | none => if out = "err" then (st, "ok") else (st, "DIS err")
+    | _, _, _ => (st, "BAD acl")
+  | ["grp", fab, gid, ep] =>
+    match fab.toNat?, gid.toNat?, ep.toNat? with
+    | some fab, some gid, some ep =>
+      let r : Option (List Fabric) :=
+        if fab = 0 ∨ fab > 255 ∨ gid > 65535 ∨ ep > 65535 then none
+        else fabricsGroupAdd st.fabrics fab ep gid
+      match r with
+      | some fs => if out = "ok" then ({ st with fabrics := fs }, "ok") else ({ st with fabrics := fs }, "DIS ok")
+      | none => if out = "err" then (st, "ok") else (st, "DIS err")
+    | _, _, _ => (st, "BAD grp")
+  | ["gaux", fab, gid, v] =>
+    match fab.toNat?, gid.toNat? with
+    | some fab, some gid =>
+      let r : Option (List Fabric × Bool) :=
+        if fab = 0 ∨ fab > 255 ∨ gid > 65535 then none else fabricsSetHasAux st.fabrics fab gid (v = "1")
+      match r with
+      | some (fs, ch) =>
+        let m := if ch then "changed" else "same"
+        if out = m then ({ st with fabrics := fs }, "ok") else ({ st with fabrics := fs }, s!"DIS {m}")
+      | none => if out = "err" then (st, "ok") else (st, "DIS err")
+    | _, _ => (st, "BAD gaux")
+  | ["acli", fab, pb, mode, subjects, targets] =>
+    match fab.toNat?, pb.toNat?, modeOf mode with
+    | some fab, some pb, some (some mode) =>
+      match buildEntry pb mode subjects targets with
+      | none => (st, "BAD entry")
+      | some none => if out = "err" then (st, "ok") else (st, "DIS err")
+      | some (some e) =>
+        let r : Option (List Fabric × Nat) :=
+          if fab = 0 ∨ fab > 255 then none else fabricsAclAddInit st.fabrics fab e
+        match r with
+        | some (fs, i) => if out = toString i then ({ st with fabrics := fs }, "ok") else ({ st with fabrics := fs }, s!"DIS {i}")
+        | none => if out = "err" then (st, "ok") else (st, "DIS err")
+    | _, _, _ => (st, "BAD acli")
+  | [which, fab, idx, pb, mode, subjects, targets] =>
+    if which ≠ "aclupd" ∧ which ≠ "aclupi" then (st, "BAD op") else
+    match fab.toNat?, idx.toNat?, pb.toNat?, modeOf mode with
+    | some fab, some idx, some pb, some (some mode) =>
+      match buildEntry pb mode subjects targets with
+      | none => (st, "BAD entry")
+      | some none => if out = "err" then (st, "ok") else (st, "DIS err")
+      | some (some e) =>
+        let r : Option (List Fabric) :=
+          if fab = 0 ∨ fab > 255 then none else fabricsAclUpdate st.fabrics fab idx e
+        match r with
+        | some fs => if out = "ok" then ({ st with fabrics := fs }, "ok") else ({ st with fabrics := fs }, "DIS ok")
+        | none => if out = "err" then (st, "ok") else (st, "DIS err")
+    | _, _, _, _ => (st, "BAD aclupd")
+  | ["aclrm", fab, idx] =>
+    match fab.toNat?, idx.toNat? with
+    | some fab, some idx =>
+      let r : Option (List Fabric) := if fab = 0 ∨ fab > 255 then none else fabricsAclRemove st.fabrics fab idx
+      match r with
+      | some fs => if out = "ok" then ({ st with fabrics := fs }, "ok") else ({ st with fabrics := fs }, "DIS ok")
+      | none => if out = "err" then (st, "ok") else (st, "DIS err")
+    | _, _ => (st, "BAD aclrm")
+  | ["aclclr", fab] =>
+    match fab.toNat? with
+    | some fab =>
+      let r : Option (List Fabric) := if fab = 0 ∨ fab > 255 then none else fabricsAclRemoveAll st.fabrics fab
+      match r with
+      | some fs => if out = "ok" then ({ st with fabrics := fs }, "ok") else ({ st with fabrics := fs }, "DIS ok")
+      | none => if out = "err" then (st, "ok") else (st, "DIS err")
+    | none => (st, "BAD aclclr")
+  | ["grprm", fab, ep, gid] =>
+    let gidO : Option (Option Nat) := if gid = "*" then some none else gid.toNat?.map some
+    match fab.toNat?, ep.toNat?, gidO with
+    | some fab, some ep, some gidO =>
+      let gbad : Bool := match gidO with | some g => decide (g > 65535) | none => false
+      let ok : Bool := !(decide (fab = 0) || decide (fab > 255) || decide (ep > 65535) || gbad)
+      match (if ok then fabricsGet st.fabrics fab else none) with
+      | none => if out = "err" then (st, "ok") else (st, "DIS err")
+      | some f =>
+        let r := groupsRemove f.groups ep gidO
+        let fs := (fabricsGroupsMutate st.fabrics fab (fun gs => (groupsRemove gs ep gidO).1)).getD st.fabrics
+        let m := if r.2 then "yes" else "no"
+        if out = m then ({ st with fabrics := fs }, "ok") else ({ st with fabrics := fs }, s!"DIS {m}")
+    | _, _, _ => (st, "BAD grprm")
+  | ["gjoin", fab, gid, eps, replace] =>
+    let epsO : Option (List Nat) :=
+      if eps = "-" then some [] else (eps.splitOn ",").foldr (fun x acc => match x.toNat?, acc with
+        | some v, some l => some (v :: l) | _, _ => none) (some [])
+    match fab.toNat?, gid.toNat?, epsO with
+    | some fab, some gid, some epsL =>
+      let ok : Bool := !(decide (fab = 0) || decide (fab > 255) || decide (gid > 65535) || epsL.any (fun x => decide (x > 65535)))
+      match (if ok then fabricsGet st.fabrics fab else none) with
+      | none => if out = "err" then (st, "ok") else (st, "DIS err")
+      | some f =>
+        let r := groupsGroupcastJoin f.groups gid epsL (replace = "1")
+        let fs := (fabricsGroupsMutate st.fabrics fab (fun gs => (groupsGroupcastJoin gs gid epsL (replace = "1")).1)).getD st.fabrics
+        let m := if r.2 then "ok" else "fail"
+        if out = m then ({ st with fabrics := fs }, "ok") else ({ st with fabrics := fs }, s!"DIS {m}")
+    | _, _, _ => (st, "BAD gjoin")
+  | ["gleave", fab, gid] =>
+    match fab.toNat?, gid.toNat? with
+    | some fab, some gid =>
+      let ok : Bool := !(decide (fab = 0) || decide (fab > 255) || decide (gid > 65535))
+      match (if ok then fabricsGet st.fabrics fab else none) with
+      | none => if out = "err" then (st, "ok") else (st, "DIS err")
+      | some f =>
+        let fs := (fabricsGroupsMutate st.fabrics fab (fun gs => groupsGroupcastRemove gs gid)).getD st.fabrics
+        let m := if f.groups.any (fun e => e.groupId == gid) then "yes" else "no"
+        if out = m then ({ st with fabrics := fs }, "ok") else ({ st with fabrics := fs }, s!"DIS {m}")
+    | _, _ => (st, "BAD gleave")
+  | ["reload"] =>
+    -- only meaningful for tables with the five privileges the Interaction Model can produce (the TLV
+    -- encoding of a raw bit pattern is lossy / panics on the empty one): not a production state
+    if st.fabrics.all (fun f => f.acl.all (fun e => canonicalPriv e.privilege)) then
+      ({ st with fabrics := fabricsReload st.fabrics }, if out = "ok" then "ok" else "DIS ok")
+    else (st, "BAD reload of a table with non-canonical privileges")
   | ["q", fab, mode, aux, id, cats, ep, cl, leaf, opb, perms, dts] =>
     match fab.toNat?, modeOf mode, id.toNat?, natList cats, optNum ep, optNum cl, optNum leaf,
         opb.toNat?, (if perms = "none" then some none else perms.toNat?.map some), natList dts with
     | some fab, some mode, some id, some cats, some ep, some cl, some leaf, some opb, some perms, some dts =>
       let subj := cats.foldl addCatid (subjectsNew id)
       let acc : Accessor := { fabIdx := fab, auxAclEnabled := aux = "1", subjects := subj, authMode := mode }
-      let req := allowLine st acc ep cl leaf opb perms dts
+      let req : AccessReq := { accessor := acc, object := {
+        path := { endpoint := ep, cluster := cl, leaf := leaf }, targetPerms := perms,
+        operation := opb, deviceTypes := dts } }
       let m := allow st.fabrics req
       let own := if fab = 0 then none else fabricsGet st.fabrics fab
       let (ma, md) := match own with
